@@ -726,6 +726,79 @@ func (c *Check) messageDispatch(rule string) {
 	})
 }
 
+// messageResults: what messageFromBytes returns per known type.
+func (c *Check) messageResults(rule string) {
+	p := c.P
+	fn := p.Fn("messageFromBytes")
+	if fn == nil || !c.sig(rule, fn, 2) {
+		return
+	}
+	b := paramExpr(fn, 0)
+	typ := func(e *Expr) bool { return isParamNamed(e, paramName(fn, 1)) }
+	type kase struct {
+		name    string
+		typ     int64
+		decoder string
+		fails   bool
+		iface   string
+	}
+	for _, k := range []kase{
+		{"OPEN decoded => that OPEN, no error", p.MustConst("openMessageType"), "openMessage.decode", false, "*openMessage"},
+		{"OPEN decode error => nil message, that error", p.MustConst("openMessageType"), "openMessage.decode", true, ""},
+		{"NOTIFICATION decoded => that NOTIFICATION, no error", p.MustConst("notificationMessageType"), "Notification.decode", false, "*Notification"},
+		{"NOTIFICATION decode error => nil message, that error", p.MustConst("notificationMessageType"), "Notification.decode", true, ""},
+		{"KEEPALIVE => a keepalive message, no error", p.MustConst("keepAliveMessageType"), "", false, "*keepAliveMessage"},
+		{"UPDATE => a copy of the whole body, no error", p.MustConst("updateMessageType"), "", false, "updateMessage"},
+	} {
+		a := NewAnalysis(p, fn)
+		h := rangeHook(typ, isConst(k.typ))
+		if k.decoder != "" {
+			h = hooks(h, nnResult(k.decoder, k.fails))
+		}
+		a.AtomHook = h
+		a.Run()
+		ok := len(a.Returns) > 0 && len(a.Undecided) == 0
+		detail := ""
+		for _, r := range a.Returns {
+			if len(r.Results) != 2 {
+				ok = false
+				continue
+			}
+			m, e := r.Results[0], r.Results[1]
+			st := r.State
+			if k.fails {
+				if !m.IsNil() {
+					ok, detail = false, "a message is returned together with a decode error"
+				}
+				if !(e.Op == "rcall" || e.Op == "ex") || !strings.Contains(e.Key, k.decoder) {
+					ok, detail = false, "the error returned is not the decoder's: "+trunc(e.Key, 60)
+				}
+				continue
+			}
+			if !e.IsNil() {
+				ok, detail = false, "an error is returned for a message that decoded"
+			}
+			if m.Op != "makeiface" || m.S != k.iface {
+				ok, detail = false, "the message returned is not a "+k.iface+": "+trunc(m.Key, 60)
+				continue
+			}
+			if k.decoder != "" {
+				// the object the decoder filled
+				if !st.must["call:"+k.decoder] || m.Args[0].Op != "alloc" {
+					ok, detail = false, "the returned object is not the one the decoder filled"
+				}
+			}
+			if k.iface == "updateMessage" {
+				lay, lerr := st.layoutOf(m.Args[0], 0)
+				if lerr != "" || len(lay) != 1 || lay[0].Kind != "bytes" || lay[0].Val == nil || lay[0].Val.Key != b.Key {
+					ok, detail = false, "the UPDATE handed on is not a copy of the whole body (layout "+layoutString(lay)+" "+lerr+")"
+				}
+			}
+		}
+		c.require(ok, rule, "messageFromBytes", k.name, p.Pos(fn.Pos()), detail)
+	}
+}
+
 // updateBodyPrivate: the slice delivered to the handler is private.
 func (c *Check) updateBodyPrivate(rule string) {
 	p := c.P
